@@ -44,7 +44,9 @@ def check_closure_idioms(ctx, extra_roots=()):
     modules |= _anchor_modules(ctx.prop_id)
     closure = [f.qual for f in db.iter_functions()
                if f.module.short in modules]
-    have = {(o.rule, o.key) for o in ctx.obligations}
+    # instances the property's own check has judged (armed); an advisory
+    # record of the thorough sweep is replaced by the armed one
+    have = {(o.rule, o.key) for o in ctx.obligations if not o.advisory}
     start = len(ctx.obligations)
     touched_before = set(ctx.functions_analysed)
     n_fn = 0
@@ -69,6 +71,9 @@ def check_closure_idioms(ctx, extra_roots=()):
     new = ctx.obligations[start:]
     kept = [o for o in new if (o.rule, o.key) not in have]
     del ctx.obligations[start:]
+    armed = {(o.rule, o.key) for o in kept}
+    ctx.obligations[:] = [o for o in ctx.obligations
+                          if not (o.advisory and (o.rule, o.key) in armed)]
     ctx.obligations.extend(kept)
     # the scan does not widen "functions analysed" beyond what failed
     ctx.functions_analysed = touched_before | {
